@@ -225,6 +225,31 @@ class BoxStub(_Domain):
                                               for i in range(len(p))]))
 
 
+# comparisons of the goals.  Symbolic: exact.  Replay: the claims are invariant under scaling of all lengths and the
+# solver likes to answer with witnesses of size 1e-18, which the harness' absolute float slack (1e-7) would wave through;
+# the replay therefore compares with a purely RELATIVE slack (1e-9 of the larger operand), strict comparisons exactly.
+
+
+def rle(L, a, b):
+    if getattr(L, "symbolic", False):
+        return L.le(a, b)
+    a, b = float(a), float(b)
+    return a <= b + 1e-9 * max(abs(a), abs(b))
+
+
+def rlt(L, a, b):
+    if getattr(L, "symbolic", False):
+        return L.lt(a, b)
+    return float(a) < float(b)
+
+
+def req(L, a, b):
+    if getattr(L, "symbolic", False):
+        return L.eq(a, b)
+    a, b = float(a), float(b)
+    return abs(a - b) <= 1e-9 * max(abs(a), abs(b))
+
+
 def _dim(sh):
     return sum(d for _, d in sh.space_vars)
 
@@ -252,8 +277,8 @@ def _enclosure_goals(o, L, d):
     q = o["q"]
     for i, (mem, b) in enumerate(zip(o["mem"], rows)):
         for a in range(d):
-            yield "min_below_member[row%d,axis%d]" % (i, a), L.Implies(mem, L.le(b[2 * a], q[a]))
-            yield "max_above_member[row%d,axis%d]" % (i, a), L.Implies(mem, L.le(q[a], b[2 * a + 1]))
+            yield "min_below_member[row%d,axis%d]" % (i, a), L.Implies(mem, rle(L, b[2 * a], q[a]))
+            yield "max_above_member[row%d,axis%d]" % (i, a), L.Implies(mem, rle(L, q[a], b[2 * a + 1]))
 
 
 _BOUNDS = dict(max_paths=200, max_decisions=96, max_forks_per_site=96)
@@ -410,9 +435,9 @@ def tight_case(kind, k, dep, mode="fork"):
         if o["shape"] != [2 * d]:
             return
         for a in range(d):
-            yield "min_is_extreme[axis%d]" % a, L.eq(o["box"][2 * a], o["want"][a][0])
-            yield "max_is_extreme[axis%d]" % a, L.eq(o["box"][2 * a + 1], o["want"][a][1])
-            yield "nondegenerate[axis%d]" % a, L.lt(o["box"][2 * a], o["box"][2 * a + 1])
+            yield "min_is_extreme[axis%d]" % a, req(L, o["box"][2 * a], o["want"][a][0])
+            yield "max_is_extreme[axis%d]" % a, req(L, o["box"][2 * a + 1], o["want"][a][1])
+            yield "nondegenerate[axis%d]" % a, rlt(L, o["box"][2 * a], o["box"][2 * a + 1])
 
     return Case(cname, body, goals, family="tight/" + kind, params=dict(kind=kind, k=k, dep=dep, minmax=mode), **_BOUNDS)
 
@@ -458,11 +483,11 @@ def point_case(dim, k, form):
         b = o["box"]
         for i, c in enumerate(o["cs"]):
             for a in range(d):
-                yield "min_below_point[row%d,axis%d]" % (i, a), L.le(b[2 * a], c[a])
-                yield "max_above_point[row%d,axis%d]" % (i, a), L.le(c[a], b[2 * a + 1])
+                yield "min_below_point[row%d,axis%d]" % (i, a), rle(L, b[2 * a], c[a])
+                yield "max_above_point[row%d,axis%d]" % (i, a), rle(L, c[a], b[2 * a + 1])
         for a in range(d):
             # a normalisation built from the box divides by max-min
-            yield "nondegenerate[axis%d]" % a, L.lt(b[2 * a], b[2 * a + 1])
+            yield "nondegenerate[axis%d]" % a, rlt(L, b[2 * a], b[2 * a + 1])
 
     return Case(cname, body, goals, family="point/" + form, params=dict(dim=dim, k=k, form=form), max_paths=64)
 
@@ -487,7 +512,7 @@ def set_box_case(dependent):
     def goals(o, L, env):
         yield "length", o["n"] == 6
         for i in range(min(o["n"], 6)):
-            yield "override_returned[%d]" % i, L.eq(o["box"][i], o["user"][i])
+            yield "override_returned[%d]" % i, req(L, o["box"][i], o["user"][i])
 
     return Case(cname, body, goals, family="product_set_bounding_box", params=dict(dependent=dependent))
 
@@ -571,12 +596,12 @@ def lhs_case(name, mk, info, n):
             lo, hi = b[2 * a], b[2 * a + 1]
             w = (hi - lo) / n
             for r in range(n):
-                yield "proposal_in_box[row%d,axis%d]" % (r, a), L.And(L.le(lo, p[r][a]), L.le(p[r][a], hi))
+                yield "proposal_in_box[row%d,axis%d]" % (r, a), L.And(rle(L, lo, p[r][a]), rle(L, p[r][a], hi))
             slabs = [(lo + w * j, lo + w * (j + 1)) for j in range(n)]
             for j, (s0, s1) in enumerate(slabs):
-                yield "slab_hit[axis%d,slab%d]" % (a, j), L.Or(*[L.And(L.le(s0, p[r][a]), L.le(p[r][a], s1)) for r in range(n)])
+                yield "slab_hit[axis%d,slab%d]" % (a, j), L.Or(*[L.And(rle(L, s0, p[r][a]), rle(L, p[r][a], s1)) for r in range(n)])
             # every member point's coordinate lies in a slab of the box (the slabs cover the domain)
-            yield "member_in_a_slab[axis%d]" % a, L.Implies(o["mem"], L.Or(*[L.And(L.le(s0, q[a]), L.le(q[a], s1)) for s0, s1 in slabs]))
+            yield "member_in_a_slab[axis%d]" % a, L.Implies(o["mem"], L.Or(*[L.And(rle(L, s0, q[a]), rle(L, q[a], s1)) for s0, s1 in slabs]))
 
     return Case(cname, body, goals, family="lhs/" + name, params=dict(shape=name, n=n, **info), **_BOUNDS)
 
